@@ -417,6 +417,160 @@ pub broadcast proof fn lemma_zipn_len<T>(a: Seq<T>, b: Seq<T>, n: nat)
     if n > 0 { lemma_zipn_len(a, b, (n - 1) as nat); }
 }
 
+// ---------------------------------------------------------------------------------
+// C16 (concatenations): the flat item sequence of a concatenation as the walker of traits/src/helpers/concatenation.rs
+// is meant to visit it - written from the statement ("lists and concatenations as the flat sequences of their items")
+// ---------------------------------------------------------------------------------
+pub open spec fn cat_opt<T>(v: Seq<T>, t: Option<Seq<T>>) -> Option<Seq<T>> {
+    match t { Some(x) => Some(v + x), None => None }
+}
+
+/// work off a stack of pending values (top = last): a concatenation is replaced by its two sides (`rev`: right side first),
+/// a list contributes its items, any other value itself. `None`: not finished within `fuel` steps
+pub open spec fn walk<Sz, N, Sy, C, B>(cells: Map<Sz, Cell<Sz, N, Sy, C, B>>, work: Seq<Sz>, rev: bool, fuel: nat) -> Option<Seq<Sz>>
+    decreases fuel
+{
+    if work.len() == 0 { Some(Seq::empty()) }
+    else if fuel == 0 { None }
+    else {
+        let r = work.last(); let rest = work.drop_last();
+        if cells[r].ty == GarnishDataType::Concatenation {
+            let first = if rev { cells[r].b } else { cells[r].a };
+            let second = if rev { cells[r].a } else { cells[r].b };
+            walk(cells, rest.push(second).push(first), rev, (fuel - 1) as nat)
+        } else {
+            let here = if cells[r].ty == GarnishDataType::List { cells[r].items } else { seq![r] };
+            cat_opt(here, walk(cells, rest, rev, (fuel - 1) as nat))
+        }
+    }
+}
+
+/// the callback's answer is a function `m` of (position, item) and it leaves the data object as it was
+#[verifier::prophetic]
+pub open spec fn cb_model<D: GarnishData, F: FnMut(&mut D, D::Number, D::Size) -> Result<Option<D::Size>, RuntimeError<D::Error>>>(
+    f: F, m: spec_fn(int, D::Size) -> Option<D::Size>, cells: Map<D::Size, Cell<D::Size, D::Number, D::Symbol, D::Char, D::Byte>>) -> bool {
+    forall|d: &mut D, i: D::Number, a: D::Size, rr: Result<Option<D::Size>, RuntimeError<D::Error>>| #![trigger f.ensures((d, i, a), rr)]
+        d.st().cells == cells && f.ensures((d, i, a), rr) ==> final(d).st() == d.st() && (rr matches Ok(x) ==> (D::is_idx(i) ==> x == m(D::nidx(i), a)))
+}
+
+/// `g` reads the two sides of a concatenation, in the order `rev` says
+pub open spec fn get_model<D: GarnishData, G: Fn(&D, D::Size) -> Result<(D::Size, D::Size), D::Error>>(
+    g: G, rev: bool, cells: Map<D::Size, Cell<D::Size, D::Number, D::Symbol, D::Char, D::Byte>>) -> bool {
+    forall|d: &D, a: D::Size, rr: Result<(D::Size, D::Size), D::Error>| #![trigger g.ensures((d, a), rr)]
+        d.st().cells == cells && g.ensures((d, a), rr) ==> (rr matches Ok(p) ==> cells.contains_key(a) && cells[a].ty == GarnishDataType::Concatenation
+            && p == (if rev { (cells[a].b, cells[a].a) } else { (cells[a].a, cells[a].b) }))
+}
+
+/// trigger carrier: a caller names the callback model it wants the walker's postcondition for by asserting `pick(m)`
+pub open spec fn pick<T>(m: T) -> bool { true }
+
+/// the walk stops at the first position whose item the callback answers; otherwise it has seen all `n` items
+pub open spec fn first_hit<Sz>(m: spec_fn(int, Sz) -> Option<Sz>, flat: Seq<Sz>, res: Option<Sz>, n: nat) -> bool {
+    (res is None ==> n == flat.len() && forall|j: int| 0 <= j < flat.len() ==> (#[trigger] m(j, flat[j])) is None)
+    && (res is Some ==> exists|p: int| 0 <= p < flat.len() && #[trigger] m(p, flat[p]) == res && forall|j: int| 0 <= j < p ==> (#[trigger] m(j, flat[j])) is None)
+}
+
+/// what a non-concatenation value contributes to the flat sequence
+pub open spec fn here<Sz, N, Sy, C, B>(cells: Map<Sz, Cell<Sz, N, Sy, C, B>>, r: Sz) -> Seq<Sz> {
+    if cells[r].ty == GarnishDataType::List { cells[r].items } else { seq![r] }
+}
+
+/// loop invariant of the walker: after `k` steps the items `vis` have been produced and `work` is still pending
+pub open spec fn walked<Sz, N, Sy, C, B>(cells: Map<Sz, Cell<Sz, N, Sy, C, B>>, w0: Seq<Sz>, rev: bool, vis: Seq<Sz>, work: Seq<Sz>, k: nat) -> bool {
+    (forall|f: nat| f < k ==> (#[trigger] walk(cells, w0, rev, f)) is None)
+    && (forall|f: nat| f >= k ==> #[trigger] walk(cells, w0, rev, f) == cat_opt(vis, walk(cells, work, rev, (f - k) as nat)))
+}
+
+pub open spec fn none_upto<Sz>(m: spec_fn(int, Sz) -> Option<Sz>, vis: Seq<Sz>) -> bool {
+    forall|j: int| 0 <= j < vis.len() ==> (#[trigger] m(j, vis[j])) is None
+}
+
+pub proof fn lemma_walked_init<Sz, N, Sy, C, B>(cells: Map<Sz, Cell<Sz, N, Sy, C, B>>, addr: Sz, rev: bool, first: Sz, second: Sz)
+    requires cells[addr].ty == GarnishDataType::Concatenation,
+        first == (if rev { cells[addr].b } else { cells[addr].a }), second == (if rev { cells[addr].a } else { cells[addr].b }),
+    ensures walked(cells, seq![addr], rev, Seq::empty(), seq![second, first], 1)
+{
+    let w0 = seq![addr];
+    assert(w0.drop_last().push(second).push(first) =~= seq![second, first]);
+    assert forall|f: nat| f >= 1 implies #[trigger] walk(cells, w0, rev, f) == cat_opt(Seq::<Sz>::empty(), walk(cells, seq![second, first], rev, (f - 1) as nat)) by {
+        let t = walk(cells, seq![second, first], rev, (f - 1) as nat);
+        match t { Some(x) => { assert(Seq::<Sz>::empty() + x =~= x); } None => {} }
+    }
+}
+
+pub proof fn lemma_walked_concat<Sz, N, Sy, C, B>(cells: Map<Sz, Cell<Sz, N, Sy, C, B>>, w0: Seq<Sz>, rev: bool, vis: Seq<Sz>, wb: Seq<Sz>, k: nat, first: Sz, second: Sz)
+    requires walked(cells, w0, rev, vis, wb, k), wb.len() > 0, cells[wb.last()].ty == GarnishDataType::Concatenation,
+        first == (if rev { cells[wb.last()].b } else { cells[wb.last()].a }), second == (if rev { cells[wb.last()].a } else { cells[wb.last()].b }),
+    ensures walked(cells, w0, rev, vis, wb.drop_last().push(second).push(first), k + 1)
+{
+    let wn = wb.drop_last().push(second).push(first);
+    assert forall|f: nat| f >= k + 1 implies #[trigger] walk(cells, w0, rev, f) == cat_opt(vis, walk(cells, wn, rev, (f - (k + 1)) as nat)) by {
+        assert(walk(cells, w0, rev, f) == cat_opt(vis, walk(cells, wb, rev, (f - k) as nat)));
+        assert(walk(cells, wb, rev, (f - k) as nat) == walk(cells, wn, rev, (f - k - 1) as nat));
+    }
+    assert forall|f: nat| f < k + 1 implies (#[trigger] walk(cells, w0, rev, f)) is None by {
+        if f == k { assert(walk(cells, w0, rev, f) == cat_opt(vis, walk(cells, wb, rev, 0))); }
+    }
+}
+
+pub proof fn lemma_walked_value<Sz, N, Sy, C, B>(cells: Map<Sz, Cell<Sz, N, Sy, C, B>>, w0: Seq<Sz>, rev: bool, vis: Seq<Sz>, wb: Seq<Sz>, k: nat)
+    requires walked(cells, w0, rev, vis, wb, k), wb.len() > 0, cells[wb.last()].ty != GarnishDataType::Concatenation,
+    ensures walked(cells, w0, rev, vis + here(cells, wb.last()), wb.drop_last(), k + 1)
+{
+    let wn = wb.drop_last();
+    let h = here(cells, wb.last());
+    assert forall|f: nat| f >= k + 1 implies #[trigger] walk(cells, w0, rev, f) == cat_opt(vis + h, walk(cells, wn, rev, (f - (k + 1)) as nat)) by {
+        assert(walk(cells, w0, rev, f) == cat_opt(vis, walk(cells, wb, rev, (f - k) as nat)));
+        let t = walk(cells, wn, rev, (f - k - 1) as nat);
+        assert(walk(cells, wb, rev, (f - k) as nat) == cat_opt(h, t));
+        match t { Some(x) => { assert(vis + (h + x) =~= (vis + h) + x); } None => {} }
+    }
+    assert forall|f: nat| f < k + 1 implies (#[trigger] walk(cells, w0, rev, f)) is None by {
+        if f == k { assert(walk(cells, w0, rev, f) == cat_opt(vis, walk(cells, wb, rev, 0))); }
+    }
+}
+
+pub proof fn lemma_walked_prefix<Sz, N, Sy, C, B>(cells: Map<Sz, Cell<Sz, N, Sy, C, B>>, w0: Seq<Sz>, rev: bool, vis: Seq<Sz>, work: Seq<Sz>, k: nat, fuel: nat, flat: Seq<Sz>)
+    requires walked(cells, w0, rev, vis, work, k), walk(cells, w0, rev, fuel) == Some(flat),
+    ensures vis.is_prefix_of(flat), work.len() == 0 ==> flat == vis,
+{
+    if fuel < k { assert(walk(cells, w0, rev, fuel) is None); }
+    else {
+        assert(walk(cells, w0, rev, fuel) == cat_opt(vis, walk(cells, work, rev, (fuel - k) as nat)));
+        let x = walk(cells, work, rev, (fuel - k) as nat)->Some_0;
+        assert(flat == vis + x);
+        if work.len() == 0 { assert(vis + Seq::<Sz>::empty() =~= vis); }
+    }
+}
+
+pub proof fn lemma_none_append<Sz>(m: spec_fn(int, Sz) -> Option<Sz>, vo: Seq<Sz>, items: Seq<Sz>)
+    requires none_upto(m, vo), forall|j: int| 0 <= j < items.len() ==> m(vo.len() + j, #[trigger] items[j]) is None,
+    ensures none_upto(m, vo + items)
+{
+    let v = vo + items;
+    assert forall|j: int| 0 <= j < v.len() implies (#[trigger] m(j, v[j])) is None by {
+        if j < vo.len() { assert(m(j, vo[j]) is None); }
+        else { let jj = j - vo.len(); assert(v[j] == items[jj]); assert(m(vo.len() + jj, items[jj]) is None); }
+    }
+}
+
+pub proof fn lemma_first_hit_some<Sz>(m: spec_fn(int, Sz) -> Option<Sz>, flat: Seq<Sz>, pre: Seq<Sz>, p: int, res: Option<Sz>, n: nat)
+    requires pre.is_prefix_of(flat), 0 <= p < pre.len(), m(p, pre[p]) == res, res is Some, forall|j: int| 0 <= j < p ==> (#[trigger] m(j, pre[j])) is None,
+    ensures first_hit(m, flat, res, n)
+{
+    assert(flat[p] == pre[p]);
+    assert(m(p, flat[p]) == res);
+    assert forall|j: int| 0 <= j < p implies (#[trigger] m(j, flat[j])) is None by { assert(flat[j] == pre[j]); assert(m(j, pre[j]) is None); }
+}
+
+/// C16 for concatenations: `v` is the value of an item keyed by `sym` among the flat items (visited in direction `rev`), or no item is
+pub open spec fn key_among<Sz, N, Sy, C, B>(cells: Map<Sz, Cell<Sz, N, Sy, C, B>>, addr: Sz, sym: Sy, v: Option<Sz>, rev: bool) -> bool {
+    forall|fuel: nat| #![trigger walk(cells, seq![addr], rev, fuel)]
+        walk(cells, seq![addr], rev, fuel) matches Some(flat) ==>
+            (v is None ==> forall|j: int| 0 <= j < flat.len() ==> (#[trigger] assoc_value(cells, flat[j], sym)) is None)
+            && (v is Some ==> exists|p: int| 0 <= p < flat.len() && #[trigger] assoc_value(cells, flat[p], sym) == v)
+}
+
 /// C12: the order of two lengths
 pub open spec fn nat_cmp(a: nat, b: nat) -> Ordering {
     if a < b { Ordering::Less } else if a == b { Ordering::Equal } else { Ordering::Greater }
@@ -976,6 +1130,7 @@ pub trait GarnishData: Sized {
             Self::is_idx(Self::num_zero()),
             forall|n: Self::Number| #![auto] Self::is_idx(n) ==> Self::nidx(n) >= 0,
             forall|n: Self::Number, m: Self::Number| #![auto] Self::is_idx(n) && n.increment_spec() == Some(m) ==> Self::is_idx(m) && Self::nidx(m) == Self::nidx(n) + 1,
+            forall|a: Self::Number, b: Self::Number, c: Self::Number| #![auto] Self::is_idx(a) && Self::is_idx(b) && a.plus_spec(b) == Some(c) ==> Self::is_idx(c) && Self::nidx(c) == Self::nidx(a) + Self::nidx(b),
             forall|s: Self::Size| #![auto] Self::is_idx(<Self::DataFactory as GarnishDataFactory<Self::Size, Self::Number, Self::Char, Self::Byte, Self::Symbol, Self::Error, Self::SizeIterator, Self::NumberIterator>>::size_to_number_spec(s)),
             forall|a: Self::Number, b: Self::Number| #![auto] Self::is_idx(a) && Self::is_idx(b) ==> Self::num_cmp(a, b) == Some(nat_cmp(Self::nidx(a) as nat, Self::nidx(b) as nat)),
             // Number constants / conversions as indices
